@@ -8,6 +8,11 @@
      a[6] = [kind; ints...]          which override the curve crate installs (see below)
      a[7] = field constants of the override (base-prime-field coordinates, flattened)
      a[8..] operands: SW affine point x ++ y ++ [infinity], TE affine point x ++ y.
+   ops: 1/11 membership test (as coded, by definition, as coded with plain mul_projective);
+        2/12 clear_cofactor (as coded, [h_eff]P, r * cleared = O, mul_by_cofactor, ..._to_group);
+        3/13 mul_by_cofactor_inv after mul_by_cofactor; 4/14 point from x / y then cofactor
+        multiplication; 5/15 configuration constants; 6/16 is_on_curve and r * P = O (used on
+        the outputs of the Rust `rand` by prop.py `extra`).
    kinds: 0 defaults; 1 curves/bls12_381 G1 [1; |x|; x<0; n11; n12; n21; n22; nbits] beta ++ endo;
           2 bls12_377 G1 [2; |x|; x<0]; 3 test-curves bls12_381 G1 [3; h_eff literal];
           4 bls12_381 G2 (both crates) [4; |x|; x<0] frob_c1, k, COEFF_1, PSI2;
@@ -61,6 +66,7 @@ Section RunSW.
            end
     | 5 => ok [[fchar F; Z.of_nat (fdeg F)]; fcoords F a; fcoords F b; [r; cinv]; hl;
                b2l (cofactor_is_one hl)]
+    | 6 => ok [b2l (sw_aff_on_curve F a b P); b2l (in_r P)]
     | _ => unsupported
     end.
 End RunSW.
@@ -174,6 +180,7 @@ Section RunTE.
             end
     | 15 => ok [[fchar F; Z.of_nat (fdeg F)]; fcoords F a; fcoords F d; [r; cinv]; hl;
                 b2l (cofactor_is_one hl)]
+    | 16 => ok [b2l (te_aff_on_curve F a d P); b2l (in_r P)]
     | _ => unsupported
     end.
 End RunTE.
